@@ -5,6 +5,20 @@ Go executor: harness/go/root/zz_verif_loop_test.go (real DB + real scheduler rou
 single-replica NodeHost with Drummer.schedule/tick/updateRequests, against a fleet simulator).
 Model: coq/theories/Fleet.v, FleetRun.v (re-validates the logged trace step by step).
 
+What is checked on every run (monitors = the property itself, evaluated on the log):
+  C01  after HEAL (faults stopped, every host up) the fleet is healed within HEAL_BOUND healthy rounds -
+       every defined shard available in Drummer's view (GetShardStates), every current member running on a
+       live host, >= defined size - and stays healed; no DB / scheduler / agent panic
+  C02  every membership entry has between n and n+1 members on pairwise distinct hosts; every ADD/DELETE
+       carries the version of the view it was computed from, goes to a host running a healthy member, a
+       DELETE targets a member classified failed, an ADD a live host without a member, healthy majority
+  C11  no KILL is issued for, or executed on, a current member; the last QUIET healthy rounds carry no
+       request at all and no stray replica runs
+Model side (sample of the runs, eventful ones first; FleetRun.run_trace): every DB result value, the whole
+scheduler context, every batch in Sched.allowed, every report / queue / host / history / availability of
+the Go simulator = Fleet.v's, init_okb after the launch, safe_b and Fleet.healthy_round (as one macro step)
+after every healthy round, steady_restb && healed at the end (the hypotheses / conclusions of the theorems).
+
 Log grammar (VERIF_OUT), one token line each:
   PARAMS ttl step
   RUN id backend hosts n shards k size z regions g seed x
@@ -25,7 +39,7 @@ Log grammar (VERIF_OUT), one token line each:
 import json, os, re, time
 from vlib import *
 
-HEAL_BOUND = 26       # healthy rounds within which every run must be healed (measured max + margin, see evidence)
+HEAL_BOUND = 16       # healthy rounds within which every run must be healed (observed maximum over 20200 runs: 6)
 QUIET = 3             # trailing healthy rounds that must be request-free
 RT = {0: "CREATE", 1: "DELETE", 2: "ADD", 3: "KILL"}
 
@@ -501,8 +515,63 @@ def run_specs(ck, binpath, specs, tag, nproc=6, died_ok=False):
     return files
 
 
+def analyse_file(args):
+    """monitors over all runs of one executor output file (runs in a worker process)"""
+    path, byid, final = args
+    res = {"agg": {}, "heal": {}, "cand": [], "viol": [], "redo": [], "params": None, "cases": []}
+    agg, viol = res["agg"], res["viol"]
+    for params, r in iter_runs(path):
+        res["params"] = params
+        spec = byid[r["id"]]
+        if r["abort"]:
+            if r["abort"].startswith("INFRA") and not final:
+                res["redo"].append(spec)      # infrastructure trouble of the real NodeHost back end: run it again
+                continue
+            if r["abort"].startswith("INFRA"):
+                viol.append((("infra",), "closed-loop run could not be executed (infrastructure): " + r["abort"],
+                             {"kind": "infra", "spec": spec}, False))
+            else:
+                bad, _ = monitor(r, spec, params or (60, 5))
+                for (pid, what) in bad:
+                    if pid != "C01" and len(viol) < 20:
+                        viol.append(((pid, what[:40]), "[%s] %s (run %d, aborted later: %s)" % (pid, what, r["id"], r["abort"]),
+                                     {"kind": "monitor", "clause": pid, "spec": spec, "trace": [l[:400] for l in r["raw"]][-300:]}, True))
+                if len(viol) < 20:
+                    viol.append((("abort", r["abort"][:40]), "Drummer DB / leader loop failed in a closed-loop run: %s (run %d)" % (r["abort"], r["id"]),
+                                 {"kind": "abort", "spec": spec, "trace_tail": [l[:400] for l in r["raw"] if l.startswith("E ")][-40:]}, True))
+            continue
+        bad, st = monitor(r, spec, params or (60, 5))
+        for k, v in st.items():
+            if isinstance(v, int):
+                agg[k] = agg.get(k, 0) + v
+        if st["healed_at"] is not None:
+            res["heal"][st["healed_at"]] = res["heal"].get(st["healed_at"], 0) + 1
+        nontrivial = st["crash"] > 0 and (st["restore"] + st["add"] + st["delete"] + st["killed"]) > 0
+        res["cases"].append((json.dumps(spec, sort_keys=True), nontrivial))
+        if not bad:
+            res["cand"].append(((r["backend"] != "nodehost", -(st["add"] + st["delete"] + st["killed"]), -st["restore"]), r["id"], path))
+        for (pid, what) in bad:
+            if len(viol) >= 20:
+                break
+            viol.append(((pid, what.split(":")[0][:60]),
+                         "[%s] %s (run %d, %s back end, %d hosts, %d shards of %d, profile %s)" % (
+                             pid, what, r["id"], r["backend"], spec["hosts"], spec["nshards"], spec["size"], spec.get("profile")),
+                         {"kind": "monitor", "clause": pid, "spec": spec,
+                          "how_to_replay": "write spec as one JSON line to a file F; VERIF_IN=F VERIF_OUT=out loop.test -test.run TestVerifLoop",
+                          "trace": [l[:400] for l in r["raw"]][-500:]}, True))
+    return res
+
+
 def run(ck):
     quick = ck.tier == "quick"
+    ck.assumptions = [
+        "fresh_id: the replica ids drawn by the scheduler's random source in a round are pairwise distinct and were never used before "
+        "(explicit hypothesis fresh_ok / fresh_run of every closed-loop theorem; LockedRand.Uint64 never returns 0, a collision has probability <= 2^-61 per draw)",
+        "model assumption: Raft with ordered config change is the linear membership history of Fleet.v (a change applies iff its fence is the "
+        "current version, a majority of the current members runs on live hosts and the proposer is a current member); dragonboat itself is not modelled",
+        "liveness: C01_steady_round is proved for the model's healthy_round (what makes a real round healthy is not modelled); reaching the "
+        "healed state within a bound (C01_heal_full, B = %d healthy rounds) is checked on generated runs only, not proved" % HEAL_BOUND,
+    ]
     ck.cov["rule"] = ("evaluations = closed-loop runs (launch, 8..40 fault rounds, %d healthy rounds); distinct_nontrivial = runs with at least one "
                       "crash and one executed restore/ADD/DELETE/KILL; model re-validation on a sample of the runs" % (HEAL_BOUND + QUIET + 2))
     if os.environ.get("C01_SKIP_PROOFS") != "1":
@@ -511,10 +580,22 @@ def run(ck):
     binpath = ck.go_test_bin("", ["root/zz_verif_loop_test.go"], name="loop")
     if binpath is None:
         return
-    n_direct = int(os.environ.get("C01_RUNS", 300 if quick else 20000))
+    n_direct = int(os.environ.get("C01_RUNS", 400 if quick else 20000))
     n_nh = int(os.environ.get("C01_NH", 6 if quick else 200))
-    n_model = int(os.environ.get("C01_MODEL", 20 if quick else 400))
-    specs = [gen_spec(ck.rng, i) for i in range(n_direct)]
+    n_model = int(os.environ.get("C01_MODEL", 24 if quick else 400))
+    # witnesses first: specifications that exposed re-introduced defects / seeded mutations (corpus/C01)
+    specs = []
+    wpath = os.path.join(ROOT, "corpus", "C01", "witness_specs.jsonl")
+    if os.path.exists(wpath):
+        for i, line in enumerate(open(wpath)):
+            if line.strip():
+                w = json.loads(line)
+                w["id"] = 1000000 + i
+                w["backend"] = "direct"
+                w["heal_rounds"] = HEAL_BOUND + QUIET + 2
+                specs.append(w)
+    ck.cov["witness_runs"] = len(specs)
+    specs += [gen_spec(ck.rng, i) for i in range(n_direct)]
     specs += [gen_spec(ck.rng, n_direct + i, "nodehost") for i in range(n_nh)]
     byid = dict((s["id"], s) for s in specs)
     t0 = time.time()
@@ -529,61 +610,40 @@ def run(ck):
     params = None
     redo = []
 
-    def judge(r, path, final):
-        spec = byid[r["id"]]
-        if r["abort"]:
-            if r["abort"].startswith("INFRA") and not final:
-                redo.append(spec)      # infrastructure trouble of the real NodeHost back end: run it again
-                return
-            if r["abort"].startswith("INFRA"):
-                ck.violation("closed-loop run could not be executed (infrastructure): " + r["abort"],
-                             {"kind": "infra", "spec": spec}, found_input=False)
-            else:
-                bad, _ = monitor(r, spec, params or (60, 5))
-                for (pid, what) in bad:
-                    if pid != "C01" and (pid, what[:40]) not in reported and len(ck.violations) < 12:
-                        reported.add((pid, what[:40]))
-                        ck.violation("[%s] %s (run %d, aborted later: %s)" % (pid, what, r["id"], r["abort"]),
-                                     {"kind": "monitor", "clause": pid, "spec": spec, "trace": [l[:400] for l in r["raw"]][-300:]})
-                if ("abort", r["abort"][:40]) not in reported and len(ck.violations) < 12:
-                    reported.add(("abort", r["abort"][:40]))
-                    ck.violation("Drummer DB / leader loop failed in a closed-loop run: %s (run %d)" % (r["abort"], r["id"]),
-                                 {"kind": "abort", "spec": spec, "trace_tail": [l[:400] for l in r["raw"] if l.startswith("E ")][-40:]})
-            return
-        bad, st = monitor(r, spec, params or (60, 5))
-        for k, v in st.items():
-            if isinstance(v, int):
-                agg[k] = agg.get(k, 0) + v
-        if st["healed_at"] is not None:
-            heal_hist[st["healed_at"]] = heal_hist.get(st["healed_at"], 0) + 1
-        nontrivial = st["crash"] > 0 and (st["restore"] + st["add"] + st["delete"] + st["killed"]) > 0
-        ck.count_case(json.dumps(spec, sort_keys=True), nontrivial)
-        cand.append(((r["backend"] != "nodehost", -(st["add"] + st["delete"] + st["killed"]), -st["restore"]), r["id"], path))
-        for (pid, what) in bad:
-            key = (pid, what.split(":")[0][:60])
+    def merge(res, final):
+        nonlocal params
+        params = res["params"] or params
+        for k, v in res["agg"].items():
+            agg[k] = agg.get(k, 0) + v
+        for k, v in res["heal"].items():
+            heal_hist[k] = heal_hist.get(k, 0) + v
+        cand.extend(res["cand"])
+        for key, nontrivial in res["cases"]:
+            ck.count_case(key, nontrivial)
+        if not final:
+            redo.extend(res["redo"])
+        for (key, what, obj, found) in res["viol"]:
             if key in reported or len(ck.violations) > 12:
                 continue
             reported.add(key)
-            ck.violation("[%s] %s (run %d, %s back end, %d hosts, %d shards of %d, profile %s)" % (
-                pid, what, r["id"], r["backend"], spec["hosts"], spec["nshards"], spec["size"], spec.get("profile")),
-                {"kind": "monitor", "clause": pid, "spec": spec,
-                 "how_to_replay": "write spec as one JSON line to a file F; VERIF_IN=F VERIF_OUT=out loop.test -test.run TestVerifLoop",
-                 "trace": [l[:400] for l in r["raw"]][-500:]})
+            ck.violation(what, obj, found_input=found)
 
-    for path in files:
-        for params_, r in iter_runs(path):
-            params = params_
-            judge(r, path, False)
+    from concurrent.futures import ProcessPoolExecutor
+    jobs = [(path, byid, False) for path in files]
+    if len(jobs) > 1:
+        with ProcessPoolExecutor(min(6, len(jobs))) as ex:
+            results = list(ex.map(analyse_file, jobs))
+    else:
+        results = [analyse_file(j) for j in jobs]
+    for res in results:
+        merge(res, False)
     if redo:
-        files2 = run_specs(ck, binpath, redo, "b", nproc=1)
-        if files2 is None:
-            return
-        for path in files2:
-            for _, r in iter_runs(path):
-                judge(r, path, True)
+        files2 = run_specs(ck, binpath, redo, "b", nproc=1, died_ok=True)
+        for path in files2 or []:
+            merge(analyse_file((path, byid, True)), True)
     ck.cov["effects"] = agg
     ck.cov["healed_after_rounds_histogram"] = dict(sorted(heal_hist.items()))
-    ck.cov["runs"] = {"direct": n_direct, "nodehost": n_nh}
+    ck.cov["runs"] = {"direct": n_direct, "nodehost": n_nh, "witness": ck.cov.get("witness_runs", 0)}
     # ---- model side: re-validate logged traces step by step
     if os.environ.get("C01_SKIP_MODEL") == "1" or ck.violations:
         return
